@@ -1,6 +1,7 @@
 SPECIFICATION GSpec
 CONSTANTS
   Mode = "lc"
+  Objs = {1}
   Keys = {1,2}
   D = 5
   Outcomes = {"ok","err","panic"}
